@@ -244,6 +244,28 @@ class PropertyCheck:
             for u in new:
                 self.undecided.append({"function": u, "why": "while loop in a function without a termination obligation"})
                 self.say(f"UNDECIDED obligation={u}:termination reason=while-loop-without-termination-obligation")
+        if self.spec.get("post_scan") == "write_set_census":
+            # C16: every syntactic site of the package that can make state outlive a call is listed with the reason why it cannot make
+            # a later ls / export depend on an earlier one (checks/write_set.json).  A site found in the tree but not listed is UNDECIDED -
+            # it needs a reason, it is not thereby a violation; a listed site that is gone is only noted.
+            from . import writeset
+            found, errors = writeset.census(REPO)
+            listed = json.load(open(os.path.join(os.path.dirname(os.path.dirname(os.path.abspath(__file__))), "checks", "write_set.json")))["sites"]
+            new = sorted(k for k in found if k not in listed)
+            gone = sorted(k for k in listed if k not in found)
+            self.scan = dict(getattr(self, "scan", {}) or {})
+            by_class = {}
+            for k in found:
+                cl = listed.get(k, {}).get("class", "UNLISTED")
+                by_class[cl] = by_class.get(cl, 0) + 1
+            self.scan["write_set_census"] = {"sites_in_tree": len(found), "listed_with_reason": len(found) - len(new), "by_class": by_class,
+                                             "unlisted": new, "listed_but_gone": gone, "unparsable_modules": errors}
+            for k in new:
+                self.undecided.append({"function": k, "why": "a persistent write site without a listed reason"})
+                self.say(f"UNDECIDED obligation={k}:write-set reason=unlisted-persistent-write-site")
+            for m, e in errors.items():
+                self.undecided.append({"function": m, "why": "module does not parse: " + e})
+                self.say(f"UNDECIDED obligation={m}:write-set reason=module-does-not-parse")
         # bounded stand-ins
         from concurrent.futures import ThreadPoolExecutor
         todo = []
